@@ -135,8 +135,7 @@ func TestC01(t *testing.T) {
 	if loadReplay(t, &sc) {
 		for i := 0; i < 4; i++ {
 			if msg := checkDeterminism(&sc, procs); msg != "" {
-				st.Violate(msg, &sc)
-				t.Fatal(msg)
+				fail(st, t, msg, &sc)
 			}
 		}
 		return
@@ -165,8 +164,7 @@ func TestC01(t *testing.T) {
 		}
 		if msg := checkDeterminism(sc, procs); msg != "" {
 			sc.Note = msg
-			st.Violate(msg, sc)
-			rt.Fatalf("%s", msg)
+			fail(st, rt, msg, sc)
 		}
 	})
 }
